@@ -561,6 +561,7 @@ func propC08(c *Ctx, r *Report) {
 		ruleRateVerdictDropped(c, r, "C08/rate-verdict-not-fatal", dropped)
 	}
 	ruleUnpricedNotValued(c, r, "C08/unpriced-not-valued")
+	rulePnWinnersGuard(c, r, cat, "C08/winners-insert-guarded")
 	r.rule("C08/convert-verdicts", 2, "a Convert error that is propagated was ruled out by an identical, dropped pre-check")
 	convertVerdicts(c, r, "C08/convert-verdicts")
 
